@@ -144,12 +144,40 @@ func failureForm(op uint16, resp []byte) bool {
 func TestC01(t *testing.T) {
 	r := NewReporter(t)
 	defer r.Done()
-	r.Rule("path strings = optional leading '/' x all sequences of <= N segments from {'', '.', '..', sub, <root>-other, <root>, out, ***DVD***, ***PS3***, PS3ISO, g.iso, secret.txt, CLOSEFILE} + specials (NUL, 65534-byte path, 300-deep ../, backslashes, '..' decorated with control/space/invalid bytes, paths padded with './', 'x/../', '//' to 255..65535 bytes) x 8 path-carrying opcodes x writing on/off x root spelling (incl. root directories named with trailing dots / spaces next to a sibling without them) x preceding request; short escaping paths also delivered in pieces (1, 7, 17 bytes, cut in the middle and one byte before the end); oracles: (O1) every leaf filesystem operation stays under the root, (O2) sentinel tree outside the root unchanged, (O3) byte-identical responses against a twin world whose outside is empty, (O4) response = model answer for the clamped path or the failure form; distinct by (path, mode, spelling, preceding request)")
+	r.Rule("path strings = optional leading '/' x all sequences of <= N segments from {'', '.', '..', sub, <root>-other, <root>, out, ***DVD***, ***PS3***, PS3ISO, g.iso, secret.txt, CLOSEFILE} + specials (NUL, 65534-byte path, 300-deep ../, backslashes, '..' decorated with control/space/invalid bytes, paths padded with './', 'x/../', '//' to 255..65535 bytes) x 8 path-carrying opcodes x writing on/off x root spelling (incl. root directories named with trailing dots / spaces next to a sibling without them) x preceding request; short escaping paths also delivered in pieces (1, 7, 17 bytes, cut in the middle and one byte before the end); oracles: (O1) every leaf filesystem operation stays under the root, (O2) sentinel tree outside the root unchanged, (O3) byte-identical responses against a twin world whose outside is empty, (O4) response = model answer for the clamped path or the failure form; the process runs in a working directory full of bait and an encrypted image whose only key files lie outside the root must be served as stored; distinct by (path, mode, spelling, preceding request)")
 	A := buildC01World(t, true)
 	B := buildC01World(t, false)
 	defer A.w.Cleanup()
 	defer B.w.Cleanup()
 	outsideSnap := snapshotTree(A.w.Dir, A.w.Root)
+	// the process's working directory is a place full of bait (REDKEY/g.dkey, PS3ISO/g.dkey, g.iso, a.txt ...): anything
+	// the server resolves relative to where it was started instead of relative to the root finds something there
+	if cwd, err := os.Getwd(); err == nil {
+		must(os.Chdir(filepath.Join(A.w.Dir, "srv")))
+		defer os.Chdir(cwd)
+	}
+	// the implicit key lookup: /PS3ISO/g.iso is an encrypted image with no key file inside the root (keys lie outside,
+	// beside the root and in the working directory) - it must be served as stored, under every spelling of its path
+	keyLookup := []string{"/PS3ISO/g.iso", "PS3ISO/g.iso", "/sub/../PS3ISO/g.iso", "/PS3ISO/../PS3ISO/g.iso", "/../root/PS3ISO/g.iso", "//PS3ISO//g.iso"}
+	for ki, p := range keyLookup {
+		if !r.Mine(ki) {
+			continue
+		}
+		reqs := []Req{mkReq(opOpenFile, p), rdcReq(0, 6*2048), rdReq(2048*3+5, 100), mkReq(opStatFile, p)}
+		m := newModel(A.w.Root, false)
+		res := runSession(t, SrvOpts{Root: A.w.Root}, m, reqs, Delivery{})
+		r.Transition(int64(len(res.Steps)))
+		r.Eval(1)
+		key := sprintf("key-lookup|%q", p)
+		r.State(key)
+		r.Nontrivial(key)
+		if res.Why != "" {
+			r.Outcome("key-lookup-outside")
+			r.Violation("C01:key-lookup:"+res.WhySig, sprintf("encrypted image without a key file inside the root, opened as %q: %s (a key file outside the root was used?)", p, res.Why), map[string]any{"path": p, "steps": res.Steps})
+		} else {
+			r.Outcome("key-lookup-stays-inside")
+		}
+	}
 	maxSeg := 3
 	spellings := []string{""}
 	prevs := [][]Req{nil, {mkReq(opOpenDir, "/")}}
@@ -344,6 +372,22 @@ func TestC01(t *testing.T) {
 				if err != nil {
 					r.HarnessError("cannot start the real binary (root spelling " + sp.name + "): " + err.Error())
 					return
+				}
+				// the implicit key lookup on the real process (its working directory holds REDKEY/g.dkey for two spellings)
+				if r.Mine(bi) {
+					for _, p := range keyLookup[:3] {
+						reqs := []Req{mkReq(opOpenFile, p), rdcReq(0, 6*2048), rdReq(2048*3+5, 100)}
+						mI := newModel(A.w.Root, allow)
+						resI := runSession(t, SrvOpts{Root: A.w.Root, AllowWrite: allow}, mI, reqs, Delivery{})
+						if resI.Why != "" {
+							continue
+						}
+						why, sig := br.replay(newModel(A.w.Root, allow), reqs, lensOf(resI.Raw), resI.Closed)
+						r.Trace(1)
+						if why != "" {
+							r.Violation("C01:key-lookup:"+sig+":root-"+sp.name, sprintf("real binary started in %s with root spelling %s: encrypted image without key inside the root opened as %q: %s", sp.cwd, sp.name, p, why), map[string]any{"root_spelling": sp.name, "path": p})
+						}
+					}
 				}
 				for pi, p := range binPaths {
 					if !r.Mine(pi*16 + bi) {
